@@ -487,6 +487,57 @@ pub fn run(opts: &Opts) -> i32 {
         }
     }
     let _ = std::fs::remove_dir_all(&files_dir);
+    // the command line itself (C14): several files on one `fmt --check` / `fmt`, in every order
+    if only == "c14" {
+        if let Some(cli) = opts.rest.iter().position(|a| a == "--cli").and_then(|i| opts.rest.get(i + 1)) {
+            let dir = opts.out.join("clifiles");
+            let _ = std::fs::remove_dir_all(&dir);
+            std::fs::create_dir_all(&dir).expect("cli dir");
+            // (unformatted text, its formatted text) pairs taken from this run
+            let mut pairs_fu: Vec<(String, String)> = Vec::new();
+            for (i, (_, text)) in inputs_copy.iter().enumerate() {
+                if let Some(Some(out)) = outputs.get(&i) {
+                    if out != text && text.len() < 4000 && matches!(fmt::format(out), Formatted::Ok(ref again) if again == out) {
+                        pairs_fu.push((text.clone(), out.clone()));
+                    }
+                }
+                if pairs_fu.len() >= 8 {
+                    break;
+                }
+            }
+            let shapes: [&[bool]; 8] = [&[true, false], &[false, true], &[false, false], &[true, true], &[true, false, false], &[false, false, true], &[false, true, false], &[true]];
+            for (k, (unformatted, formatted)) in pairs_fu.iter().enumerate() {
+                for shape in shapes {
+                    // true = a file `fmt` would rewrite
+                    let mut paths = Vec::new();
+                    for (j, dirty) in shape.iter().enumerate() {
+                        let p = dir.join(format!("p{k}-{j}.zy"));
+                        std::fs::write(&p, if *dirty { unformatted } else { formatted }).expect("write");
+                        paths.push(p);
+                    }
+                    let run = |args: &[&str]| {
+                        let out = std::process::Command::new(cli).args(args).args(&paths).output().expect("spawn zydeco");
+                        (out.status.code().unwrap_or(-1), String::from_utf8_lossy(&out.stdout).to_string())
+                    };
+                    let (code, listed) = run(&["fmt", "--check"]);
+                    let want = i32::from(shape.iter().any(|d| *d));
+                    let listed_ok = paths.iter().zip(shape.iter()).all(|(p, d)| listed.contains(&p.display().to_string()) == *d);
+                    sink.count("cli_check_invocations");
+                    if code != want || !listed_ok {
+                        sink.violation("c14-check-exit-status", serde_json::json!({"would_change": shape, "exit": code, "expected_exit": want, "listed": listed, "unformatted": unformatted, "formatted": formatted}));
+                    }
+                    let (wcode, _) = run(&["fmt"]);
+                    let (after, _) = run(&["fmt", "--check"]);
+                    let all_formatted = paths.iter().all(|p| std::fs::read_to_string(p).map(|t| t == *formatted).unwrap_or(false));
+                    if wcode != 0 || after != 0 || !all_formatted {
+                        sink.violation("c14-fmt-then-check", serde_json::json!({"would_change": shape, "fmt_exit": wcode, "check_after_fmt_exit": after, "files_are_the_formatted_text": all_formatted, "unformatted": unformatted}));
+                    }
+                    sink.case(&format!("# c14 cli {k} {:?}", shape).replace(' ', ""), &format!("{code} {wcode} {after}"));
+                }
+            }
+            let _ = std::fs::remove_dir_all(&dir);
+        }
+    }
     sink.finish();
     if !hung.is_empty() {
         // abandoned worker threads are still spinning
